@@ -347,7 +347,11 @@ func gen(t *rapid.T) Case {
 	for i := 0; i < np; i++ {
 		c.Patterns = append(c.Patterns, genPattern(t, g, c.Cur))
 	}
-	switch rapid.IntRange(0, 4).Draw(t, "tagmode") {
+	switch rapid.IntRange(0, 6).Draw(t, "tagmode") {
+	case 5: // several exclude tags: a target carrying ANY of them is filtered out
+		c.ExcludeTags = []string{"x", "y"}
+	case 6:
+		c.Tags, c.ExcludeTags = []string{"x"}, []string{"no-cache", "y"}
 	case 0:
 		c.Tags = []string{"x"}
 	case 1:
